@@ -21,10 +21,14 @@ LEVEL = 'exploration'
 RULE = ('(a) programs: every assignment of behaviours {CONTINUE, FAIL_AND_CONTINUE, raise, '
         'STOP, FAIL_SUBTEST, SKIP, time-out, REPEAT} to the setup/main/teardown phases of five '
         'nesting skeletons (group in sequence / subtest / branch / group main / group teardown) '
+        'and three skeletons whose teardown holds every node kind (taken / untaken branch, '
+        'checkpoint, sequence, phases) '
         'restricted to <= 2 non-default behaviours, plus seeded random group-rich programs; '
-        '(b) schedules: for each program of an 8-member family, one run per (thread role, '
+        '(b) schedules: for each program of a 9-member family, one run per (thread role, '
         'function, line, hit) reached by a discovery run, pausing there while one complete '
-        'abort is performed (quick: seeded sample); distinct = distinct program or (program, '
+        'abort is performed (quick: seeded sample), and one run per line reached by the '
+        '*aborting* thread, held there 150 ms while the framework threads run on, for an '
+        'abort arriving at the start / end of the slow main phase; distinct = distinct program or (program, '
         'pause point); non-trivial = at least one group instance was judged')
 ASSUMPTIONS = [
     'a group is "entered" iff every setup phase has a recorded non-terminal result, was invoked, '
@@ -34,7 +38,8 @@ ASSUMPTIONS = [
 ]
 REQUIRED_COUNTERS = ['programs_run', 'groups_judged', 'groups_entered',
                      'groups_not_entered', 'teardown_phases_judged',
-                     'schedules_paused', 'aborts_performed']
+                     'teardown_branches_judged', 'teardown_checkpoints_judged',
+                     'schedules_paused', 'aborter_paused', 'aborts_performed']
 EXHAUSTIVE = {'quick': False, 'thorough': False}
 PLAN = {
     'quick': {'workers': 16, 'budget_s': 60, 'sampled_per_worker': 150,
@@ -67,15 +72,33 @@ def skeletons():
       'nested_td': [g(1, td_extra=[g(2)]), _p('post')],
       'sub_in_main': [g(1, main=[['T', 'st', [_p('u1'), g(2), _p('u2')]], _p('m1b')]),
                       _p('post')],
+      # teardown made of every node kind: branch (taken / not taken),
+      # checkpoint, sequence, besides direct phases
+      'rich_td_seq': [_p('pre'), rich(1), _p('post')],
+      'rich_td_subtest': [['T', 'st', [_p('pre'), rich(1), _p('in_post')]],
+                          _p('post')],
+      'rich_td_nested': [rich(1, main=[_p('m1'), g(2)]), _p('post')],
   }
 
 
-def assign(prog, assignment):
+def rich(k, main=None):
+  return ['G', [_p('s%d' % k)], main if main is not None else [_p('m%d' % k)],
+          [_p('t%da' % k),
+           ['B', 'tbr%d' % k, 'NOT_ANY', ['D1'], [_p('t%dbp' % k)]],
+           ['B', 'tbn%d' % k, 'ANY', ['D1'], [_p('t%dnp' % k)]],
+           ['C', 'tcp%d' % k, 'last', 'S'],
+           ['S', [_p('t%dsp' % k)]],
+           _p('t%db' % k)]]
+
+
+def assign(prog, assignment, diag=None):
   prog = json.loads(json.dumps(prog))
   for n, _ in pm.walk(prog):
     if n[0] == 'P' and n[1] in assignment:
       r = assignment[n[1]]
       n[2]['r'] = ['R', 'R', 'R'] if r == 'R' else r
+    if n[0] == 'P' and n[1] == diag:
+      n[2]['ds'] = [[['D1', 0]]]
   return prog
 
 
@@ -86,6 +109,10 @@ def enumerated(tier):
     for pid in ids:
       for b in BEHS[1:]:
         yield {'k': 'prog', 'prog': assign(sk, {pid: b}), 'cfg': {}}
+      if name.startswith('rich'):
+        # the phase also issues the diagnosis the teardown branches look at
+        yield {'k': 'prog', 'prog': assign(sk, {pid: 'C'}, diag=pid), 'cfg': {}}
+        yield {'k': 'prog', 'prog': assign(sk, {pid: 'F'}, diag=pid), 'cfg': {}}
     pairs = list(itertools.combinations(ids, 2))
     for p1, p2 in pairs:
       for b1, b2 in itertools.product(['F', 'X', 'S', 'U', 'T'], repeat=2):
@@ -100,6 +127,14 @@ def enumerated(tier):
     else:
       for j in range(nsched):
         yield {'k': 'sched', 'family': fi, 'pick': j}
+  for fi in range(len(FAMILY)):
+    for when in ('start', 'end'):
+      if nsched is None:
+        for idx in range(400):
+          yield {'k': 'asched', 'family': fi, 'when': when, 'idx': idx}
+      else:
+        for idx in range(60):     # every line the aborting thread reaches, first hit
+          yield {'k': 'asched', 'family': fi, 'when': when, 'idx': idx}
 
 
 def _slow(pid, t=0.01, **beh):
@@ -107,7 +142,8 @@ def _slow(pid, t=0.01, **beh):
 
 
 FAMILY = [
-    [_p('a'), ['G', [_p('s')], [_slow('m1', 0.02), _p('m2')], [_p('t1'), _p('t2')]],
+    [_p('a'), ['G', [_p('s')], [_slow('m1', 0.02, noarg=True), _p('m2', noarg=True)],
+                [_p('t1', noarg=True), _p('t2')]],
      _p('z')],
     [['G', [_slow('s', 0.01)], [['G', [_p('s2')], [_slow('m2', 0.02)], [_p('t2a')]],
                                 _p('m1b')], [_p('t1a'), _p('t1b')]]],
@@ -124,6 +160,7 @@ FAMILY = [
      _p('z')],
     [['G', [_p('s', plugs=[0])], [_slow('m', 0.02, plugs=[0])],
       [_p('t1', plugs=[0]), ['G', [_p('s2')], [_p('m2')], [_p('t2')]]]]],
+    [['T', 'st', [rich(1, main=[_slow('m1', 0.02, r='U'), _p('m1b')])]], _p('z')],
 ]
 
 
@@ -146,6 +183,16 @@ def gen_group_program(rng):
     t = [phase('t') for _ in range(rng.randint(1, 2))]
     if depth > 1 and rng.random() < .3:
       t.append(group(depth - 1, in_sub))
+    for _ in range(rng.choice([0, 0, 1, 2])):
+      r = rng.random()
+      if r < .45:
+        t.append(['B', 'b%d' % next(ids), rng.choice(['ANY', 'NOT_ANY']), ['D1'],
+                  [phase('t') for _ in range(rng.randint(1, 2))]])
+      elif r < .75:
+        t.append(['C', 'c%d' % next(ids), rng.choice(['last', 'all']),
+                  rng.choice(['S', 'S', 'U']) if in_sub else 'S'])
+      else:
+        t.append(['S', [phase('t') for _ in range(rng.randint(1, 2))]])
     return ['G', s, m, t]
 
   def node(depth, in_sub):
@@ -178,7 +225,8 @@ _POINTS = {}
 def run_prog(case):
   real = pm.run_real(case['prog'], case.get('cfg') or {}, keep=True)
   obs = {'events': real['_events'], 'phases': real.get('phases') or [],
-         'outcome': real.get('outcome')}
+         'outcome': real.get('outcome'), 'branches': real.get('branches'),
+         'checkpoints': real.get('checkpoints')}
   viol, c = grouporacle.judge(case['prog'], obs)
   if real.get('exc') or real['ncallbacks'] != 1:
     viol.append({'mechanism': 'execute-raised-or-no-record',
@@ -237,7 +285,76 @@ def run_sched(case):
           'violations': viol, 'counters': c}
 
 
+_APOINTS = {}
+
+
+def slow_pid(prog):
+  for n, _ in pm.walk(prog):
+    if n[0] == 'P' and n[2].get('slow'):
+      return n[1]
+  return None
+
+
+def run_asched(case):
+  """The *aborting* thread is the one held: one abort arrives after an event
+  of the slow main phase and is paused at a line of its own path
+  (Test.abort_from_sig_int -> TestExecutor.abort -> PhaseExecutor.stop ...)
+  while executor and phase threads run on."""
+  from vf import abortlab
+  fi, when = case['family'], case['when']
+  prog = FAMILY[fi]
+  ev = (when, slow_pid(prog))
+  key = (fi, when)
+  if key not in _APOINTS:
+    obs = abortlab.run(prog, {}, abort_after_event=ev, abort_in_thread=True)
+    pts = []
+    for k, n in sorted(obs['seen'].items()):
+      if k[0] == 'abort':
+        for h in range(1, min(n, 3) + 1):
+          pts.append((k, h))
+    pts.sort(key=lambda p: (p[1], p[0]))
+    _APOINTS[key] = pts
+  pts = _APOINTS[key]
+  if 'pick' in case:
+    import os
+    rng = random.Random('a/%s/%s/%s/%s' % (case['pick'], fi, when,
+                                           os.environ.get('VERIF_SEED', '0')))
+    idx = rng.randrange(len(pts)) if pts else 0
+  else:
+    idx = case['idx']
+  if idx >= len(pts):
+    return {'sig': None, 'violations': [], 'counters': {}, 'evaluations': 0,
+            'sample': False}
+  target = pts[idx]
+  obs = abortlab.run(prog, {}, target=target, abort_after_event=ev,
+                     abort_in_thread=True)
+  viol, c = [], {}
+  info = obs['info']
+  ctx = {'family': fi, 'abort_after': list(ev),
+         'aborter_held_at': [list(target[0]), target[1]]}
+  if obs['hang']:
+    viol.append({'mechanism': 'execute-did-not-return' if obs['hang']['same_stacks']
+                 else 'harness:watchdog', 'detail': dict(ctx, stacks=obs['hang']['stacks'])})
+  elif not obs['recs']:
+    viol.append({'mechanism': 'no-record-after-abort',
+                 'detail': dict(ctx, result=obs['result'])})
+  else:
+    v, c = grouporacle.judge(prog, obs)
+    for x in v:
+      x['detail'].update(ctx)
+      x['detail']['events'] = [e[2:5] for e in obs['events']][:40]
+    viol.extend(v)
+  c = dict(c)
+  c['aborter_paused'] = 1 if info['reached'] and target else 0
+  c['aborts_performed'] = 1 if any(e[2] == 'abort_ret' for e in obs['events']) else 0
+  c['pause_not_reached'] = 0 if info['reached'] else 1
+  return {'sig': ['asched', fi, when, list(target[0]), target[1]],
+          'violations': viol, 'counters': c}
+
+
 def run_case(case):
   if case['k'] == 'prog':
     return run_prog(case)
+  if case['k'] == 'asched':
+    return run_asched(case)
   return run_sched(case)
